@@ -324,15 +324,37 @@ def stream_collections(ctx, drv, n):
     base = ctx.scratch_dir()
     good = [t for t in TEXTS if t.strip() and "\x00" not in t and t not in ("def (:\n", "if x:\n        y = 1\n    z = 2\n")]
     names = ["a", "b", "c", "d", "e", "f"]
-    for ci in range(n):
+    fixed = [
+        # collected files named like dotted modules: `import os.path` names os/path.py, which is NOT collected
+        ({"os.path.py": "x = 1\n", "u.py": "import os.path\nprint(os.path.sep)\n", "v.py": "import u\n"},
+         [["u.py"], ["u.py", "v.py"], ["os.path.py", "u.py"]]),
+        ({"xml.dom.py": "y = 2\n", "a.b/c.py": "z = 3\n", "w.py": "import xml.dom\nimport a.b.c\nfrom a.b import c\nw = 0\n"},
+         [["w.py"], ["w.py", "xml.dom.py"], ["w.py", "a.b/c.py"]]),
+        ({"p.q.py": "", "pkg/m.n.py": "k = 1\n", "t.py": "import p.q\nimport pkg.m.n\nfrom p import q\nt = 1\n", "pkg/s.py": "import t\n"},
+         [["t.py"], ["t.py", "pkg/s.py"], ["t.py", "p.q.py"]]),
+    ]
+    for ci in range(n + len(fixed)):
         k = ctx.rng.randrange(3, 6)
         files = {}
+        fixed_subsets = None
+        if ci < len(fixed):
+            files, fixed_subsets = dict(fixed[ci][0]), fixed[ci][1]
+            k = 0
         for i in range(k):
             body = ctx.rng.choice(good + ["", "x = = 1\n"])
             imports = "".join(f"import {names[j]}\n" for j in range(k) if j != i and ctx.rng.random() < 0.3)
             if ctx.rng.random() < 0.2:
                 imports += f"import {names[i]}\n"
             files[f"{names[i]}.py"] = imports + body
+        if fixed_subsets is None and ctx.rng.random() < 0.4:
+            # a collected file (or directory) whose name looks like a dotted module, imported by name elsewhere
+            mod = ctx.rng.choice(["os.path", "xml.dom", "collections.abc", "a.b", "zz.yy.xx"])
+            nm = ctx.rng.choice([f"{mod}.py", mod.replace(".", "/", 1) + ".py" if mod.count(".") > 1 else f"{mod}.py",
+                                 mod.rsplit(".", 1)[0] + "/" + mod.rsplit(".", 1)[1] + ".py" if mod.count(".") > 1 else f"{mod}.py"])
+            files[nm] = ctx.rng.choice(["x = 1\n", "", "def f():\n    return 0\n"])
+            importer = ctx.rng.choice([p for p in files if p != nm])
+            files[importer] = f"import {mod}\n" + files[importer]
+            ctx.dist("subcollection.dotted_module_like_file")
         root = base / f"c{ci}" / "whole"
         c11.write_dir(root, files)
         whole = collect_dir(root)
@@ -340,8 +362,8 @@ def stream_collections(ctx, drv, n):
             ctx.violations.append({"what": f"collect aborted with {whole['exc']}",
                                    "replay": {"kind": "collection", "files": files, "impl": whole, "model": None, "spec": "a database"}})
             continue
-        for sj in range(2):
-            subset = [p for p in files if ctx.rng.random() < 0.6] or [next(iter(files))]
+        for sj in range(len(fixed_subsets) if fixed_subsets else 2):
+            subset = fixed_subsets[sj] if fixed_subsets else ([p for p in files if ctx.rng.random() < 0.6] or [next(iter(files))])
             sub_files = {p: files[p] for p in subset}
             sroot = base / f"c{ci}" / f"sub{sj}"
             c11.write_dir(sroot, sub_files)
